@@ -212,7 +212,7 @@ theorem exgLoop_spec (F : Field) (a : Nat) :
       exact exgStep_spec F a _ (ih) _ _ _ _ _ _ h1 h2 h
 
 /-- fb_inv_exgcd: zero is reported; a returned value c satisfies a·c = 1 in GF(2)[z]/(f).
-    Full statement (not proved): also `bitLen c ≤ F.m` (the cofactor is reduced after the final conditional addition of f), and
+    `bitLen c ≤ F.m` is `invExgcd_isElem` below.  Full statement (not proved):
     `a ≠ 0 → bitLen a ≤ F.m → ∃ c, invExgcd F a = some c` (the fuel 2(bitLen a + bitLen f) + 2 suffices). -/
 theorem invExgcd_partial (F : Field) (hF : F.wellFormed = true) (a : Nat) :
     (a = 0 → invExgcd F a = none) ∧ (∀ c, invExgcd F a = some c → F.mul a c = 1) := by
@@ -232,5 +232,87 @@ theorem invExgcd_partial (F : Field) (hF : F.wellFormed = true) (a : Nat) :
       by_cases hb : g.testBit F.m = true
       · rw [if_pos hb, ψ_xor, ψ_f, add_zero]; exact hg
       · rw [if_neg hb]; exact hg
+
+/-! ### fb_inv_exgcd: the degree of the returned cofactor -/
+
+theorem bl_xor_le {x y k : Nat} (hx : bitLen x ≤ k) (hy : bitLen y ≤ k) : bitLen (x ^^^ y) ≤ k := by
+  rw [bitLen_le_iff] at *; exact Nat.xor_lt_two_pow hx hy
+
+theorem bl_shl_le {x k : Nat} (j : Nat) (hx : bitLen x ≤ k) : bitLen (x <<< j) ≤ k + j := by
+  rw [bitLen_le_iff] at *
+  rw [Nat.shiftLeft_eq, pow_add]
+  exact Nat.mul_lt_mul_of_pos_right hx (by positivity)
+
+/-- u, v non-zero; deg g1 + deg v ≤ m and deg g2 + deg u ≤ m (in bit lengths) -/
+def DegInv (m u v g1 g2 : Nat) : Prop :=
+  u ≠ 0 ∧ v ≠ 0 ∧ bitLen g1 + bitLen v ≤ m + 2 ∧ bitLen g2 + bitLen u ≤ m + 2
+
+theorem exgStep_deg (m : Nat) (rec : Nat → Nat → Nat → Nat → Int → Option Nat)
+    (hrec : ∀ u v g1 g2 c, DegInv m u v g1 g2 → rec u v g1 g2 ((bitLen u : Int) - (bitLen v : Int)) = some c → bitLen c ≤ m + 1)
+    (u v g1 g2 j c : Nat) (hI : DegInv m u v g1 g2) (hj : bitLen v + j = bitLen u)
+    (h : exgStep rec u v g1 g2 j = some c) : bitLen c ≤ m + 1 := by
+  obtain ⟨hu, hv, h1, h2⟩ := hI
+  have hvp := bitLen_pos hv
+  have hu' : bitLen (u ^^^ (v <<< j)) ≤ bitLen u := bl_xor_le le_rfl (by rw [← hj]; exact bl_shl_le j le_rfl)
+  have hg' : bitLen (g1 ^^^ (g2 <<< j)) ≤ m + 2 - bitLen v :=
+    bl_xor_le (by omega) (le_trans (bl_shl_le j le_rfl) (by omega))
+  unfold exgStep at h
+  simp only [] at h
+  by_cases hu1 : u ^^^ (v <<< j) = 1
+  · rw [if_pos hu1] at h
+    simp only [Option.some.injEq] at h
+    subst h; omega
+  · rw [if_neg hu1] at h
+    by_cases hu0 : u ^^^ (v <<< j) = 0
+    · rw [if_pos hu0] at h; exact absurd h (by simp)
+    · rw [if_neg hu0] at h
+      exact hrec _ _ _ _ _ ⟨hu0, hv, by omega, by omega⟩ h
+
+theorem exgLoop_deg (m : Nat) :
+    ∀ (fuel u v g1 g2 c : Nat), DegInv m u v g1 g2 →
+      exgLoop fuel u v g1 g2 ((bitLen u : Int) - (bitLen v : Int)) = some c → bitLen c ≤ m + 1 := by
+  intro fuel
+  induction fuel with
+  | zero => intro u v g1 g2 c _ h; simp [exgLoop] at h
+  | succ k ih =>
+    intro u v g1 g2 c hI h
+    rw [exgLoop] at h
+    obtain ⟨hu, hv, h1, h2⟩ := hI
+    by_cases hj : ((bitLen u : Int) - (bitLen v : Int)) < 0
+    · rw [if_pos hj] at h
+      exact exgStep_deg m _ ih _ _ _ _ _ _ ⟨hv, hu, h2, h1⟩ (by omega) h
+    · rw [if_neg hj] at h
+      exact exgStep_deg m _ ih _ _ _ _ _ _ ⟨hu, hv, h1, h2⟩ (by omega) h
+
+/-- fb_inv_exgcd returns a reduced element -/
+theorem invExgcd_isElem (F : Field) (hF : F.wellFormed = true) (a c : Nat) (ha : bitLen a ≤ F.m)
+    (h : invExgcd F a = some c) : bitLen c ≤ F.m := by
+  obtain ⟨hb, _, _, hf⟩ := wf_parts hF
+  unfold invExgcd at h
+  by_cases ha0 : a = 0
+  · rw [if_pos ha0] at h; exact absurd h (by simp)
+  · rw [if_neg ha0] at h
+    cases hl : exgLoop (2 * (bitLen a + bitLen F.f) + 2) a F.f 1 0 ((bitLen a : Int) - ((F.m : Int) + 1)) with
+    | none => rw [hl] at h; exact absurd h (by simp)
+    | some g =>
+      rw [hl] at h
+      simp only [Option.some.injEq] at h
+      have b1 : bitLen 1 = 1 := by decide
+      have b0 : bitLen 0 = 0 := by simp [bitLen]
+      have hj : ((bitLen a : Int) - ((F.m : Int) + 1)) = (bitLen a : Int) - (bitLen F.f : Int) := by rw [hb]; push_cast; ring
+      rw [hj] at hl
+      have hg := exgLoop_deg F.m _ _ _ _ _ _ ⟨ha0, hf, by rw [b1]; omega, by rw [b0]; omega⟩ hl
+      have hgl : g < 2 ^ (F.m + 1) := (bitLen_le_iff _ _).1 hg
+      have hfl : F.f < 2 ^ (F.m + 1) := (bitLen_le_iff _ _).1 (by omega)
+      rw [← h, bitLen_le_iff]
+      by_cases hbit : g.testBit F.m = true
+      · rw [if_pos hbit]
+        apply lt_two_pow_of_testBit_false (Nat.xor_lt_two_pow hgl hfl)
+        have hft : F.f.testBit F.m = true := by
+          have := testBit_bitLen_sub_one hf
+          rwa [hb, Nat.add_sub_cancel] at this
+        rw [Nat.testBit_xor, hbit, hft]; rfl
+      · rw [if_neg hbit]
+        exact lt_two_pow_of_testBit_false hgl (by simpa using hbit)
 
 end Relic.Lemmas.FbInvEuclid
